@@ -27,6 +27,7 @@ type C02Plan struct {
 	AlwaysAbs int     `json:"always_abs,omitempty"` // interface option AlwaysSetAbsoluteExpiry: now + this many seconds at open time (0 = off)
 	AlwaysRel int     `json:"always_rel,omitempty"` // interface option AlwaysSetRelativateExpiry in seconds (0 = off)
 	IterFault int     `json:"iter_fault,omitempty"` // >0: separate scenario: the backend query ends with an error after n-1 records
+	Slow      int     `json:"slow,omitempty"` // slow-consumer scenario: number of records queried by a consumer that stalls after the first one
 }
 
 // C02Op is one interface operation.
@@ -79,9 +80,44 @@ func genC02(rng *rand.Rand, tier string) *C02Plan {
 		p.Backend = "hashmap"
 		p.Cache = 0
 	}
+	if p.IterFault == 0 && p.Backend != "badger" && rng.IntN(12) == 0 {
+		p.Slow = 11 + rng.IntN(10)
+		p.Cache = 0
+		p.AlwaysAbs, p.AlwaysRel = 0, 0
+	}
 	n := 2 + rng.IntN(14)
 	if tier == "thorough" {
 		n = 2 + rng.IntN(30)
+	}
+	switch rng.IntN(10) {
+	case 0:
+		// expiry scenario: one record whose expiry is set several times in different ways, with reads in between
+		k := rng.IntN(len(keyPool))
+		p.Ops = append(p.Ops, C02Op{Kind: "put", Key: k, Seed: rng.IntN(1 << 20), Wrapped: rng.IntN(2) == 0})
+		for i, m := 0, 3+rng.IntN(4); i < m; i++ {
+			op := C02Op{Kind: []string{"setrel", "setabs", "setabs", "get", "advance"}[rng.IntN(5)], Key: k}
+			switch op.Kind {
+			case "setrel", "setabs":
+				op.Secs = []int{5, 60, 3600}[rng.IntN(3)]
+			case "advance":
+				op.Secs = []int{1, 2, 5, 10}[rng.IntN(4)]
+			}
+			p.Ops = append(p.Ops, op)
+		}
+		p.Ops = append(p.Ops, C02Op{Kind: "get", Key: k})
+	case 1:
+		// eviction scenario: more records than the cache holds, then one of the early ones is deleted or replaced
+		// and everything is flushed
+		if p.Cache != 0 {
+			p.CacheSize = 2
+		}
+		ks := rng.Perm(len(keyPool))[:4]
+		for _, k := range ks {
+			p.Ops = append(p.Ops, C02Op{Kind: "put", Key: k, Seed: rng.IntN(1 << 20), Wrapped: rng.IntN(2) == 0})
+		}
+		p.Ops = append(p.Ops, C02Op{Kind: []string{"delete", "delete", "put"}[rng.IntN(3)], Key: ks[rng.IntN(2)], Seed: rng.IntN(1 << 20)})
+		p.Ops = append(p.Ops, C02Op{Kind: []string{"flush", "advance"}[rng.IntN(2)], Secs: 10})
+		p.Ops = append(p.Ops, C02Op{Kind: "get", Key: ks[0]}, C02Op{Kind: "get", Key: ks[1]}, C02Op{Kind: "query"})
 	}
 	kinds := []string{"put", "put", "put", "putnew", "get", "exists", "delete", "delete", "putmany", "purge", "setabs", "setrel", "maintain", "maintainall", "query", "query", "advance", "advance", "clearcache", "flush"}
 	for i := 0; i < n; i++ {
@@ -331,6 +367,10 @@ func execC02(p *C02Plan, rc *simkit.RunCtx) {
 	}
 	if p.IterFault > 0 {
 		execIterFault(s)
+		return
+	}
+	if p.Slow > 0 {
+		execSlowConsumer(s)
 		return
 	}
 	for oi, op := range p.Ops {
@@ -662,6 +702,57 @@ func execIterFault(s *c02State) {
 	if err := it.Err(); err == nil || !strings.Contains(err.Error(), "injected") {
 		rc.Fail("C02.iterator-error-lost", "a storage error during the query was not reported to the consumer after the result stream ended",
 			fmt.Sprintf("drained %d records, Err() = %v", n, err))
+	}
+}
+
+// execSlowConsumer: more records than the result buffer holds and a consumer that stalls after the first one. The
+// storage gives up on a stalled consumer (a storage error during the query); that error must reach the consumer: a
+// result that is short of visible records and reports no error looks complete.
+func execSlowConsumer(s *c02State) {
+	rc := s.rc
+	n := s.p.Slow
+	want := map[string]bool{}
+	for i := 0; i < n; i++ {
+		nonceCounter++
+		nonce := fmt.Sprintf("n%d", nonceCounter)
+		r := makeRecord(fmt.Sprintf("bulk/k%02d", i), nonce, fieldsFromSeed(i), i%2 == 0)
+		if err := s.iface.Put(r); err != nil {
+			rc.Fail("C02.harness", "put failed", err.Error())
+			return
+		}
+		want[nonce] = true
+	}
+	it, err := s.iface.Query(query.New(dbName + ":bulk/"))
+	if err != nil {
+		rc.Fail("C02.query-error", "query failed", err.Error())
+		return
+	}
+	got := map[string]bool{}
+	first := true
+	for r := range it.Next {
+		id := nonceOf(r)
+		if got[id] {
+			rc.Fail("C02.query-duplicate", "query yielded a record twice", id)
+			return
+		}
+		if !want[id] {
+			rc.Fail("C02.query-extra", "query yielded a record that was never stored under the prefix", id)
+			return
+		}
+		got[id] = true
+		if first {
+			first = false
+			time.Sleep(3 * time.Second) // the consumer stalls
+		}
+	}
+	rc.Probe("slow-consumer-query")
+	if err := it.Err(); err != nil {
+		rc.Fault("query-consumer-timeout")
+		return
+	}
+	if len(got) != len(want) {
+		rc.Fail("C02.iterator-error-lost", "a query that gave up on a stalled consumer ended without reporting an error: the truncated result looks complete ("+s.p.Backend+")",
+			fmt.Sprintf("%d of %d records, Err() = nil", len(got), len(want)))
 	}
 }
 
